@@ -7,6 +7,7 @@ import itertools
 NAMES = {
     "abc": ["a", "b", "c", "d"],                 # lexical order == table order
     "chr": ["chr2", "chr10", "chr1", "chrM"],    # lexical order != table order
+    "num": ["2", "10", "1", "3"],                # names that look like numbers
 }
 
 
